@@ -7,11 +7,22 @@ impl<const D: usize> GenericConfig<D> for PoseidonGoldilocksConfig { type F = Go
 /// plonk/circuit_data.rs CommonCircuitData: only `num_public_inputs` and `config` are read by the repository
 #[verifier::reject_recursive_types(F)]
 pub struct CommonCircuitData<F, const D: usize> { pub num_public_inputs: usize, pub config: CircuitConfig, pub _p: core::marker::PhantomData<F> }
-#[verifier::external_body]
+/// plonky2 plonk/circuit_data.rs VerifierOnlyCircuitData: the two public fields, as opaque comparable values
+#[derive(PartialEq, Eq, Clone, Copy)]
+pub struct VkPart { pub w: [u64; 4] }
+impl vstd::std_specs::cmp::PartialEqSpecImpl for VkPart {
+    open spec fn obeys_eq_spec() -> bool { true }
+    open spec fn eq_spec(&self, other: &Self) -> bool { self.w@ == other.w@ }
+}
 #[verifier::reject_recursive_types(C)]
-pub struct VerifierOnlyCircuitData<C, const D: usize> { _p: core::marker::PhantomData<C> }
+pub struct VerifierOnlyCircuitData<C, const D: usize> { pub constants_sigmas_cap: VkPart, pub circuit_digest: VkPart, pub _p: core::marker::PhantomData<C> }
 /// abstract identity of a verifier key (circuit digest + constants commitment)
 pub uninterp spec fn vk_of<C, const D: usize>(v: &VerifierOnlyCircuitData<C, D>) -> int;
+/// TB-3b: the key's identity is exactly its two components (two keys are the same key iff cap and digest agree)
+#[verifier::external_body]
+pub broadcast proof fn axiom_vk_components<C, const D: usize>(a: &VerifierOnlyCircuitData<C, D>, b: &VerifierOnlyCircuitData<C, D>)
+    ensures (#[trigger] vk_of(a) == #[trigger] vk_of(b)) <==> (a.constants_sigmas_cap.w@ == b.constants_sigmas_cap.w@ && a.circuit_digest.w@ == b.circuit_digest.w@),
+{ }
 
 /// in-circuit verifier data: either baked constants of a given key, or free witness wires
 #[verifier::external_body]
